@@ -92,6 +92,8 @@ def mon_wire(tr):
                         out.append(("wire:after-disconnect", "packet %s written after DISCONNECT on connection %s" % (d["name"], conn)))
                     if d["name"] == "disconnect":
                         after_disc.add(conn)
+                    if d.get("connect_malformed"):
+                        out.append(("wire:connect-malformed", "CONNECT on connection %s does not decode: %s" % (conn, d["connect_malformed"])))
                     if d["name"] == "reserved" or (d["name"] in ("connack", "suback", "unsuback", "pingresp")):
                         out.append(("wire:not-a-client-packet", "client wrote a %s packet" % d["name"]))
     for opi, conn, hx in w.malformed:
@@ -308,7 +310,10 @@ def mon_deadline(tr):
                     and not any(x.startswith(("unsupported", "dead after")) for x in lines):
                 out.append(("deadline:expiry-ignored", "connection %d saw two read deadline expiries in a row (the second without progress) and the read routine still waits on it: `%s`" % (double, l)))
                 double = None
-            if l.startswith("ev stall ") and p[-1] == "unarmed":
+            if l.startswith("ev stall dial"):
+                out.append(("deadline:unarmed-wait:dial", "during `%s` the Dialer is invoked with a context that never expires although PauseTimeout is "
+                            "configured: a dial that gets no answer blocks ReadSlices for good" % op[:40]))
+            elif l.startswith("ev stall ") and p[-1] == "unarmed":
                 out.append(("deadline:unarmed-wait:" + ("readall" if op.split()[:1] == ["readall"] else p[3]),
                             "during `%s` the client waits for the stalled broker %s without a read deadline (connection %s)"
                             % (op[:40], "inside the handshake reply" if p[3] == "handshake" else "inside a packet", p[2])))
@@ -865,3 +870,16 @@ SESSION_ASSUMPTIONS = [
     "A-bufio: bufio.Reader modelled from the Go 1.23 sources, exercised through the real package on every run",
     "sequential scripts: each operation runs to quiescence (goroutine states) before the next; interleavings inside one operation are the Sync model's subject",
 ]
+
+
+def volatile_stage(ctx, module, profile, v, stats, n_quick=120, n_thorough=2000, drain=True):
+    """the same kind of histories on VolatileSession (the package's own in-memory Persistence): no persistence events to watch,
+    the wire and the calls must be those of the model, and after a fault-free connection nothing may remain pending"""
+    vprofile = dict(profile, fault=0, restart=0, damage=0, wrap=0, blocked=0)
+    vkeep = lambda l: l.startswith(("ev w ", "rs ", "pub ", "exch", "ret ", "blocked", "ctr "))
+    vtransform = lambda sc: [("v" + o if o.startswith("init ") else o) for o in sc if o.split()[0] not in ("sfail", "dfail", "lfail", "store", "damage")]
+    vmon = lambda tr, sc: mon_sanity(tr)
+    dmon = lambda tr, sc: mon_drained(tr)
+    _, vstats, _, _, _ = run_property(ctx, module, vprofile, n_quick, n_thorough, [vmon], vkeep, length=(10, 36), verdict=v, transform=vtransform,
+                                      corpus=False, drain=drain, drain_monitors=[dmon] if drain else None)
+    stats["volatile_scripts"] = vstats["scripts"]
